@@ -283,6 +283,23 @@ pub fn run_c16(ctx: &Ctx) {
         }
     }
     ctx.class("deep-chain / long-name sensitivity cases", m);
+    // the crate's public incremental hasher (`Fnv1a64Hasher`, "a const compatible Fnv1a64 hasher") is the same
+    // function: for every split of a few byte strings into two updates its digest is FNV-1a-64
+    for data in [&b""[..], &b"a"[..], &b"test_path"[..], long.as_bytes(), &[0u8, 0xFF, 0x80, 0x01][..]] {
+        for cut in 0..=data.len().min(12) {
+            m += 1;
+            let r = trap(|| {
+                let mut h = postcard_schema::key::hash::Fnv1a64Hasher::new();
+                h.update(&data[..cut]);
+                h.update(&data[cut..]);
+                h.digest_bytes()
+            });
+            let want = fnv1a64(data).to_le_bytes();
+            if r != Ok(want) {
+                ctx.violation("key-public-hasher", format!("Fnv1a64Hasher over {} bytes (updates of {} and {}) gives {:?}, FNV-1a-64 is {}", data.len(), cut, data.len() - cut, r.map(|b| hex(&b)), hex(&want)), (5u64 << 40) | cut as u64, json!({"data": hex(data), "cut": cut}));
+            }
+        }
+    }
     // Key helpers on keys that differ in exactly one byte: comparison must see every byte position
     for base in [[0u8; 8], [0xFF; 8], [1, 2, 3, 4, 5, 6, 7, 8]] {
         for pos in 0..8 {
